@@ -154,8 +154,8 @@ P("C20", "exploration",
   "part logic: sequences of 3..12 inbound handshakes on one node (valid; invalid key 0/1/p/p+1/2^32-1; other nonce; different key for the same claimed peer with and without its own valid PoW) at spacings 0 / 1ns / cooldown-1ns / cooldown / beyond, "
   "cooldown 0/1/5/60 s, difficulty 0 or 2..8, through Node::handle_transport_handshake; oracle: accepted iff key in (1,p) and lz_ref(handshake digest) >= d; on rejection key unchanged and reputation lowered; on acceptance the session key equals HMAC(DH secret, sorted publics) by the reference; "
   "part socket (h_transport): the same over real TCP with ACK/EOF observation; distinct = (difficulty, cooldown, outcome sequence)",
-  [H("logic", "h_node2", 5000, 500000, hprop="C20")], [A_SAN, A_VCLK, A_OSSL],
-  {"handshakes.admissible": 5000, "handshakes.inadmissible": 5000, "handshakes.key-derivation-checked": 3000})
+  [H("logic", "h_node2", 5000, 500000, hprop="C20"), H("socket", "h_transport", 60, 3000, hprop="C20s", qworkers=8)], [A_SAN, A_VCLK, A_OSSL],
+  {"handshakes.admissible": 5000, "handshakes.inadmissible": 5000, "handshakes.key-derivation-checked": 3000, "socket-handshakes.admissible": 50, "socket-handshakes.inadmissible": 50, "socket-handshakes.rejections-with-a-live-session": 10})
 
 P("C21", "exploration",
   "case = timed sequence of 6..35 ANNOUNCEs from 1..3 peers over socketpair sessions (unique chunk per announce so acceptance is visible) with one flaw drawn from {none, names another announcer, expired, remaining < min TTL, other chunk id, threshold unmet, assigned shard missing, undecodable/empty manifest, version < 3 with PoW, spoiled nonce}; "
@@ -222,8 +222,22 @@ P("C29", "exploration",
 P("C35", "exploration",
   "part control: 8 hostile connections per case to the in-process ControlServer (header without colon, 16 KiB+ lines, no newline at all, PAYLOAD-LENGTH variants, empty / huge / unwritable OUT:, garbage manifests, unknown commands, binary, truncated payloads, 2000 headers, CRLF), client closing with or without reading the reply, SIGPIPE left at its default as in `eph serve`; "
   "after every hostile connection an honest PING must be answered; part transport (h_transport): raw TCP peer before and after a genuine handshake; any sanitizer report, terminate or fatal signal is a violation; distinct = hostile-kind sequence",
-  [H("control", "h_control", 400, 60000, hprop="C35c")], [A_SAN, "bounded progress: an honest client must be answered within the 10 s watchdog"],
-  {"control.hostile-connections": 3000, "control.honest-pings-served": 3000})
+  [H("control", "h_control", 400, 60000, hprop="C35c"), H("transport", "h_transport", 120, 20000, hprop="C35t", qworkers=8)],
+  [A_SAN, "bounded progress: an honest client / peer must be served within the watchdog (25 s / 20 s) while a silent or half-sent connection is open"],
+  {"control.hostile-connections": 3000, "control.honest-pings-served": 3000, "control.stall-probes": 2, "transport.post-handshake-hostile-messages": 800, "transport.adversarial-manifest-then-chunk": 200,
+   "transport.honest-handshakes-served": 200, "transport.stall-probes": 2})
+
+P("C14", "exploration",
+  "case%3: (0) two real nodes over loopback, burst of 1..200 messages of sizes 0/1/63/64/65/.../3000; (1) messages around the limit: 1 MiB-1, exactly 1 MiB (must arrive), 1 MiB+1 and 2 MiB (send must fail, nothing may arrive); receiver handler log compared with the sender log (count, order, SHA-256, length); "
+  "(2) the harness as a raw TCP peer after a genuine handshake: every frame the node emits is nonce|len|ct with ct == reference ChaCha20(key, nonce, payload), nonces pairwise distinct, no plaintext on the wire; hand-made frames are delivered; a header announcing > 1 MiB (body never sent) must end the session; distinct = (mode, size sequence)",
+  [H("main", "h_transport", 45, 3000, hprop="C14", qworkers=8)], [A_SAN, A_OSSL, "real loopback TCP; a delivery wait that exceeds the 30 s watchdog is reported as loss"],
+  {"sessions.messages-delivered": 500, "sessions.exactly-1MiB-sends": 10, "sessions.oversized-sends": 10, "wire.frames-observed": 100, "wire.oversized-length-announcements": 10})
+
+P("C39", "exploration",
+  "case = two real nodes with a live loopback session and a rotation interval from {5,6,10,60,300} s under the offset virtual clock: first tick both before any rotation is due (keys equal, probe messages flow both ways), then jump to interval-50ms / +1ms / +random / 2x interval, "
+  "tick A and B in a chosen order with 0 / 1 / 10 / 500 / 999 ms or > interval between the two ticks; at each observation point: keys equal (and probes delivered), or the session is closed on both sides; distinct = (interval, jump, order, delta)",
+  [H("main", "h_transport", 40, 3000, hprop="C39", qworkers=8)], [A_SAN, "virtual time = real + offset; node threads keep running"],
+  {"rotation.schedules": 30, "rotation.observations.before-rotation-due": 30, "rotation.probes": 30})
 
 NOT_APPLICABLE = {}
 HOOK_COMMITS = []
